@@ -1,0 +1,107 @@
+//go:build verif
+
+package keylock
+
+// Verification hooks (build tag `verif` only; add-only, no existing line changed).
+// They read the lockers' internal tables at quiescence for the C02 check in /verif.
+
+func verifEntriesK(d *KeyLocker) int {
+	if !d.locker.TryLock() {
+		return -1
+	}
+	defer d.locker.Unlock()
+	return len(d.lockMap)
+}
+
+func verifCountsK(d *KeyLocker, key interface{}) (int, int, bool) {
+	if !d.locker.TryLock() {
+		return -1, -1, false
+	}
+	defer d.locker.Unlock()
+	w, ok := d.lockMap[key]
+	if !ok {
+		return 0, 0, false
+	}
+	return w.readCount, w.writeCount, true
+}
+
+func verifEntriesT[T comparable](d *TKeyLocker[T]) int {
+	if !d.locker.TryLock() {
+		return -1
+	}
+	defer d.locker.Unlock()
+	return len(d.lockMap)
+}
+
+func verifCountsT[T comparable](d *TKeyLocker[T], key T) (int, int, bool) {
+	if !d.locker.TryLock() {
+		return -1, -1, false
+	}
+	defer d.locker.Unlock()
+	w, ok := d.lockMap[key]
+	if !ok {
+		return 0, 0, false
+	}
+	return w.readCount, w.writeCount, true
+}
+
+// VerifEntries returns the number of per-key entries retained by a Locker built by this package
+// (KeyLocker or KeyLockerGrp); -1 if a table mutex is held or the type is unknown.
+func VerifEntries(l Locker) int {
+	switch v := l.(type) {
+	case *KeyLocker:
+		return verifEntriesK(v)
+	case *KeyLockerGrp:
+		n := 0
+		for _, x := range v.ls {
+			e := verifEntriesK(x)
+			if e < 0 {
+				return -1
+			}
+			n += e
+		}
+		return n
+	}
+	return -1
+}
+
+// VerifKeyCounts returns (readCount, writeCount, present) of key's entry in a Locker.
+func VerifKeyCounts(l Locker, key interface{}) (int, int, bool) {
+	switch v := l.(type) {
+	case *KeyLocker:
+		return verifCountsK(v, key)
+	case *KeyLockerGrp:
+		return verifCountsK(v.calculateKey(key), key)
+	}
+	return -1, -1, false
+}
+
+// VerifTEntries is VerifEntries for the generic lockers (TKeyLocker, TKeyLockerGrp).
+func VerifTEntries[T comparable](l TLocker[T]) int {
+	switch v := l.(type) {
+	case *TKeyLocker[T]:
+		return verifEntriesT(v)
+	case *TKeyLockerGrp[T]:
+		n := 0
+		for _, x := range v.ls {
+			e := verifEntriesT(x)
+			if e < 0 {
+				return -1
+			}
+			n += e
+		}
+		return n
+	}
+	return -1
+}
+
+// VerifTKeyCounts is VerifKeyCounts for the generic lockers.
+func VerifTKeyCounts[T comparable](l TLocker[T], key T) (int, int, bool) {
+	switch v := l.(type) {
+	case *TKeyLocker[T]:
+		return verifCountsT(v, key)
+	case *TKeyLockerGrp[T]:
+		return verifCountsT(v.calculateKey(key), key)
+	}
+	return -1, -1, false
+}
